@@ -47,6 +47,9 @@ pub struct Profile {
     pub p_world2: f64,
     /// PRM: probability of the query history setup, construct, solve, set_problem(P2), solve
     pub p_prm_requery: f64,
+    /// spaces with an SO3 component: probability that the goal target is a rotation close to
+    /// the start given by the opposite-sign quaternion, with a step below their separation
+    pub p_so3_signflip: f64,
 }
 impl Default for Profile {
     fn default() -> Self {
@@ -68,6 +71,7 @@ impl Default for Profile {
             p_extra_starts: 0.15,
             p_world2: 0.3,
             p_prm_requery: 0.0,
+            p_so3_signflip: 0.0,
         }
     }
 }
@@ -242,6 +246,31 @@ pub fn gen_plan_case(ch: &mut Ch, prof: &Profile) -> PlanCase {
                 let m = (hi - lo) * 0.15;
                 start[offs[i]] = ch.range(lo + 1e-6, lo + m);
                 goal.targets[0][offs[i]] = ch.range(hi - m, hi - 1e-6);
+                break;
+            }
+        }
+    }
+    let mut step = step;
+    if ch.prob(prof.p_so3_signflip) {
+        let offs = space.offsets();
+        for (i, c) in space.comps.iter().enumerate() {
+            if let Comp::SO3 { .. } = c {
+                let o = offs[i];
+                let q0 = [start[o], start[o + 1], start[o + 2], start[o + 3]];
+                let ang = ch.range(0.02, 0.06);
+                let q = quat_at_angle(ch, &q0, ang);
+                for k in 0..4 {
+                    goal.targets[0][o + k] = -q[k];
+                }
+                // other components: same as the start, so that the rotation is what separates them
+                for k in 0..start.len() {
+                    if k < o || k >= o + 4 {
+                        goal.targets[0][k] = start[k];
+                    }
+                }
+                let w = space.weights[i].abs().max(1e-9);
+                step = ang * w * ch.range(0.15, 0.6);
+                goal.radius = ang * w * 0.1;
                 break;
             }
         }
